@@ -28,7 +28,7 @@ def universe():
 
 
 def plan(tier, seed):
-    n_rand = 40000 if tier == "quick" else 1000000
+    n_rand = 40000 if tier == "quick" else 16000000
     nsh = 4 if tier == "quick" else 16
     shards = [{"kind": "pairs", "part": i, "parts": nsh, "n_rand": n_rand // nsh, "n_lit": (400 if tier == "quick" else 3000)} for i in range(nsh)]
     return {
